@@ -19,6 +19,7 @@ DRIVERS = [  # component, trace module, driver cfg (quick, thorough)
     ("metrics", "Trace_Conc", {"goroutines": 8, "ops": 300}, {"goroutines": 16, "ops": 2000}),
     ("rate", "Trace_Conc", {"goroutines": 12, "ops": 150}, {"goroutines": 16, "ops": 800}),
     ("rebal", "Trace_Conc", {"goroutines": 8, "ops": 150}, {"goroutines": 12, "ops": 800}),
+    ("rebaladmin", "Trace_Conc", {"goroutines": 8, "adminops": 1500}, {"goroutines": 12, "adminops": 6000}),
     ("stackall", "Trace_Conc", {"goroutines": 8, "ops": 100}, {"goroutines": 12, "ops": 600}),
 ]
 
@@ -65,10 +66,11 @@ def run(ctx, replay):
                 expect="NoLostUpdate", workers=4)
         vlib.mc(ctx, "LockDiscipline", vlib.make_cfg(constants=lc("rlock", 2), invariants=inv), "locks-asis-write-under-rlock",
                 expect="NoDataRace", workers=4)
-    for comp, module, cq, ct in comps:
+    runs = [(c, ctx.seed + 1000 * k) for k in range(1 if quick or replay else 6) for c in comps]   # thorough: six schedule seeds per driver
+    for (comp, module, cq, ct), sseed in runs:
         cfg = cq if quick else ct
-        tp = vlib.os.path.join(ctx.work, "trace-c09-%s.ndjson" % comp)
-        p = vlib.run_harness(ctx, ["stress", comp, "-trace", tp, "-seed", str(ctx.seed), "-cfg", vlib.json.dumps(cfg), "-hang", "60"],
+        tp = vlib.os.path.join(ctx.work, "trace-c09-%s-%d.ndjson" % (comp, sseed))
+        p = vlib.run_harness(ctx, ["stress", comp, "-trace", tp, "-seed", str(sseed), "-cfg", vlib.json.dumps(cfg), "-hang", "60"],
                              race=True, allow_fail=True, timeout=1500, env_extra={"GORACE": "halt_on_error=0 history_size=3"})
         sc = {"id": "stress-" + comp, "component": comp, "cfg": cfg, "steps": []}
         if p.returncode == 3:
@@ -86,7 +88,7 @@ def run(ctx, replay):
             raise vlib.InfraError("stress driver %s failed (%d): %s" % (comp, p.returncode, p.stderr[-2000:]))
         if not vlib.os.path.exists(tp) or vlib.os.path.getsize(tp) == 0:
             continue
-        res = vlib.validate_trace(ctx, module, tp, "c09-" + comp)
+        res = vlib.validate_trace(ctx, module, tp, "c09-%s-%d" % (comp, sseed))
         trs = vlib.scenario_traces(tp)
         for b in res["bad"]:
             if b["clause"].startswith("TRACE."):
@@ -98,7 +100,7 @@ def run(ctx, replay):
         ctx.scenarios += len(trs)
         ctx.distinct.add(comp)
         for k in trs:
-            ctx.distinct.add(comp + "/" + k)
+            ctx.distinct.add("%s/%s/%d" % (comp, k, sseed))
         if comp == "metrics":
             ctx.samples.append({"driver": comp, "cfg": cfg, "recorded_events": trs.get("metrics", [])[:4]})
     ctx.extra["race_reports"] = nraces
